@@ -323,6 +323,7 @@ static inline int32_t timerlist_add_duration(struct timerlist *timerlist,
 					 timer_handle * handle)
 {
 	int res;
+	uint64_t current_time;
 	struct timerlist_timer *timer;
 
 	timer =
@@ -332,7 +333,16 @@ static inline int32_t timerlist_add_duration(struct timerlist *timerlist,
 		return -ENOMEM;
 	}
 
-	timer->expire_time = qb_util_nano_current_get() + nano_duration;
+	current_time = qb_util_nano_current_get();
+	if (nano_duration > UINT64_MAX - current_time) {
+		/*
+		 * The sum does not fit in 64 bits: saturate instead of wrapping
+		 * around to a time in the past (the timer would fire at once).
+		 */
+		timer->expire_time = UINT64_MAX;
+	} else {
+		timer->expire_time = current_time + nano_duration;
+	}
 	timer->is_absolute_timer = QB_FALSE;
 	timer->data = data;
 	timer->timer_fn = timer_fn;
